@@ -201,25 +201,61 @@ def r3_accessors(ctx):
             r.viol("R3:create_locale_type_inner#" + name, "`%s` is not `keys.iter().filter_map(<exactly its shape> => Some, _ => None)`: base %s, methods %s, patterns %s" % (name, show(base), meths, pats), file=fn.file, line=l["line"])
         else:
             r.inst("create_locale_type_inner#" + name, "keys.iter().filter_map over %s" % some[0])
-    # who inserts into BuildersKeysInner
-    ins = []
-    for f in ast.fns:
-        if f.is_test() or not f.file.startswith(("leptos_i18n_parser", "leptos_i18n_macro", "leptos_i18n_build")):
+    # who builds a BuildersKeysInner (MIR: construction sites and inserts into its map; an extracted helper counts as its caller)
+    prog = ctx.mir("main")
+    import mustlib as M2
+    ins = set()
+    for name, b in prog.bodies.items():
+        if b.crate not in ("leptos_i18n_parser", "leptos_i18n_macro", "leptos_i18n_build") or "Default>::default" in name or "Debug>::fmt" in name:
             continue
-        t = flat(show(f.body)) if f.body else ""
-        if re.search(r"keys\.0\.insert\(|BuildersKeysInner\(", t):
-            ins.append(f.qual)
-    if ins != ["Locale::make_builder_keys"]:
-        r.viol("R3:who-builds-BuildersKeysInner", "BuildersKeysInner is filled in %s (expected only Locale::make_builder_keys, i.e. from the default locale)" % ins, file=PL)
+        built = any(True for _ in b.aggregates("locale::BuildersKeysInner"))
+        # the tuple-struct constructor used as a function value (`.map(BuildersKeysInner)`)
+        for i2, j2, s2 in b.assigns():
+            for o in s2["rv"].get("ops", []):
+                c = op_const(o)
+                if c and (c.get("fn") or "").endswith("locale::BuildersKeysInner"):
+                    built = True
+        for i2, t2 in b.calls():
+            for o in [t2["func"]] + t2["args"]:
+                c = op_const(o)
+                if c and (c.get("fn") or "").endswith("locale::BuildersKeysInner"):
+                    built = True
+        for i2, t2 in b.calls():
+            if (callee_name(t2) or "").endswith("BTreeMap::<K, V, A>::insert"):
+                rp = op_place(t2["args"][0])
+                if rp is not None and M2.derives_from_field(b, prog, rp["l"], "locale::BuildersKeysInner", "0"):
+                    built = True
+        if built:
+            ins.add(M2.owner_of(prog, name).split("parse_locales::")[-1])
+    if ins != {"locale::Locale::make_builder_keys"}:
+        r.viol("R3:who-builds-BuildersKeysInner", "BuildersKeysInner is filled in %s (expected only Locale::make_builder_keys, i.e. from the default locale)" % sorted(ins), file=PL)
     else:
         r.inst("who fills BuildersKeysInner", "Locale::make_builder_keys only (called on the default locale / default subkeys)")
     fn = ast.fn(PL, "make_builder_keys", impl_self="Locale")
     if fn is not None:
-        t = flat(show(fn.body))
-        if "for(key,value)in&mutself.keys{" not in t or "keys.0.insert(key,locale_value);" not in t:
-            r.viol("R3:make_builder_keys", "make_builder_keys does not insert one entry per key of the locale it is called on", file=fn.file, line=fn.line)
+        from rules import absint
+        from rules.absint import AEval, C, CF, A, T, L, UNIT
+        stack = []
+
+        def S(x):
+            return ("str", x)
+        this = CF("Locale", keys=L(T(S("a"), A("va")), T(S("b"), A("vb")), T(S("c"), A("vc"))), top_locale_name=S("en"), name=S("en"))
+        ev = AEval(funcs={}, builtins={
+            "push_key": lambda rv, a: (stack.append(a[0]), UNIT)[1], "pop_key": lambda rv, a: C("Some", stack.pop()) if stack else C("None"),
+            "unwrap_at": lambda rv, a: (rv[2][0] if rv[0] == "ctor" and rv[1] in ("Some", "Ok") else rv), "reduce": lambda rv, a: UNIT,
+            "make_locale_value": lambda rv, a: C("Ok", A("lv(%s,%s)" % (rv[1], absint.fmt(a[0]))))})
+        ev.path_builtins = {"BuildersKeysInner::default": lambda a: C("BuildersKeysInner", L()), "BTreeMap::new": lambda a: L()}
+        v = ev.run_fn(fn, [this, A("key_path"), A("strings")])
+        got = None
+        if not isinstance(v, str) and v[0] == "ctor" and v[1] == "Ok" and v[2] and v[2][0][0] == "ctor" and v[2][0][1] == "BuildersKeysInner":
+            inner = v[2][0]
+            lst = inner[2][0] if inner[2] else dict(inner[3]).get("0")
+            got = sorted((absint.fmt(x[1][0]), absint.fmt(x[1][1])) for x in lst[1]) if lst and lst[0] == "list" else None
+        want = [("a", "lv(va,en)"), ("b", "lv(vb,en)"), ("c", "lv(vc,en)")]
+        if got == want and not stack:
+            r.inst("make_builder_keys", "one builder key per key of self.keys, made from that key's own value with the locale's top_locale_name")
         else:
-            r.inst("make_builder_keys", "one builder key per key of self.keys")
+            r.viol("R3:make_builder_keys", "for keys {a, b, c} make_builder_keys yields %s (expected one entry per key: %s)" % (got if got is not None else (v if isinstance(v, str) else absint.fmt(v)), want), file=fn.file, line=fn.line)
     return r
 
 
@@ -227,34 +263,39 @@ def r4_warnings(ctx):
     r = Rule("C07.R4", "one deprecated function per warning, each called once",
              "diagnostics reach the user as deprecation warnings; dropping or duplicating a call changes what the user sees", floor=3)
     ast = ctx.ast
-    fn = ast.fn(MW, "generate_warnings_inner")
-    if fn is None:
-        r.missing("generate_warnings_inner")
-        return r
-    t = flat(show(fn.body))
-    qs = [flat(tok_text(q["tokens"])) for q in xquotes(fn.body)]
-    ok1 = "letwarning_fns=warnings.iter().enumerate().map(warning_fn);" in t
-    ok2 = "letfn_calls=(0..warnings.len()).map(" in t and "#fn_name();" in qs
-    ok3 = any(q == "#[allow(unused)]fnwarnings(){#(#warning_fns)*#(#fn_calls)*}" for q in qs)
-    if ok1 and ok2 and ok3:
-        r.inst("generate_warnings_inner", "fn warnings() { one fn per warning; one call per index 0..len }")
-    else:
-        r.viol("R4:generate_warnings_inner", "warning generation changed (fns=%s calls=%s template=%s)" % (ok1, ok2, ok3), file=fn.file, line=fn.line)
-    fn = ast.fn(MW, "warning_fn")
-    if fn is not None:
-        qs = [flat(tok_text(q["tokens"])) for q in xquotes(fn.body)]
-        t = flat(show(fn.body))
-        if "#[deprecated(note=#msg)]fn#fn_name(){unimplemented!()}" in qs and "letmsg=warning.to_string();" in t and 'letfn_name=format_ident!("w{}",index);' in t:
-            r.inst("warning_fn", "#[deprecated(note = <warning text>)] fn w<index>()")
-        else:
-            r.viol("R4:warning_fn", "warning function template changed", file=fn.file, line=fn.line)
     fn = ast.fn(MW, "generate_warnings")
-    if fn is not None:
-        t = flat(show(fn.body))
-        if "letws=warnings.into_inner();" in t and "Some(generate_warnings_inner(&ws))" in t:
+    if fn is None:
+        r.missing("generate_warnings")
+        return r
+    # symbolic evaluation of the generator on 0 and 3 collected warnings (stable toolchain branch)
+    from rules import absint
+    from rules.absint import AEval, C, A, L, B, TOK
+    funcs = absint.file_funcs(ast, MW)
+    for n in (3, 0):
+        ws = L(*[A("W%d" % k) for k in range(n)])
+        ev = AEval(inputs=[(r'^cfg!notfeature="nightly"$', B(True)), (r'^cfg!feature="nightly"$', B(False))], funcs=funcs,
+                   builtins={"into_inner": lambda rv, a, ws=ws: ws, "to_string": lambda rv, a: ("str", "text of %s" % rv[1])})
+        ev.totokens = lambda v: ('"%s"' % v[1]) if v[0] == "str" else None
+        v = ev.run_fn(fn, [A("warnings")])
+        if n == 0:
+            if v == C("None"):
+                r.inst("generate_warnings (no warning)", "nothing is generated")
+            else:
+                r.viol("R4:generate_warnings#empty", "without warnings the generator yields %s" % (v if isinstance(v, str) else absint.fmt(v)), file=fn.file, line=fn.line)
+            continue
+        txt = re.sub(r"\s+", "", v[2][0][1]) if not isinstance(v, str) and v[0] == "ctor" and v[1] == "Some" and v[2] and v[2][0][0] == "tok" else None
+        if txt is None:
+            r.viol("R4:generate_warnings", "not all collected warnings are passed on: with 3 warnings the generator yields %s" % (v if isinstance(v, str) else absint.fmt(v)), file=fn.file, line=fn.line)
+            continue
+        fns = re.findall(r'#\[deprecated\(note="(textofW\d)"\)\]fn(w\d+)\(\)\{unimplemented!\(\)\}', txt)
+        body = re.sub(r'#\[deprecated\(note="textofW\d"\)\]fnw\d+\(\)\{unimplemented!\(\)\}', "", txt)
+        calls = re.findall(r"(w\d+)\(\);", body)
+        if fns == [("textofW0", "w0"), ("textofW1", "w1"), ("textofW2", "w2")] and calls == ["w0", "w1", "w2"] and body.startswith("#[allow(unused)]fnwarnings(){"):
+            r.inst("generate_warnings_inner", "fn warnings() { one #[deprecated(note = <text of warning i>)] fn w<i> per warning; each called exactly once }")
+            r.inst("warning_fn", "#[deprecated(note = <warning text>)] fn w<index>()")
             r.inst("generate_warnings", "all collected warnings are generated")
         else:
-            r.viol("R4:generate_warnings", "not all collected warnings are passed on", file=fn.file, line=fn.line)
+            r.viol("R4:generate_warnings_inner", "with 3 warnings the generated item is `%s`: deprecated functions %s, calls %s (expected w0..w2 each defined with its warning's text and called once)" % (txt[:300], fns, calls), file=fn.file, line=fn.line)
     return r
 
 
